@@ -36,8 +36,15 @@ for opl, nm in ((0, "prepend"), (1, "append")):
                             bounds="%s a well-formed list of %d objects to a well-formed list of %d (concrete lengths, exhaustive over 0..3 in thorough)" % (nm, nb, na), cost=5))
 # the insertion step (incl. the put-back of a refused insertion) is shared with C01
 import importlib.util as _iu
-_s = _iu.spec_from_file_location("spec_C01", os.path.join(os.path.dirname(__file__), "C01.py")); _m = _iu.module_from_spec(_s); _s.loader.exec_module(_m)
-for _h in _m.HARNESSES:
+import builtins as _b
+_m = None
+if not getattr(_b, "_vp_c01_loading", False):
+    _b._vp_c01_loading = True
+    try:
+        _s = _iu.spec_from_file_location("spec_C01", os.path.join(os.path.dirname(__file__), "C01.py")); _m = _iu.module_from_spec(_s); _s.loader.exec_module(_m)
+    finally:
+        _b._vp_c01_loading = False
+for _h in (_m.HARNESSES if _m else []):
     if _h["name"] == "insert_nested2": _h2 = dict(_h); _h2["name"] = "C01_" + _h["name"]; HARNESSES.append(_h2)      # the put-back of a refused insertion
 OUTSIDE = ["successful Group insertion + reconnect, restrict on inner objects, distance-based grouping (tree surgery under symbolic control)", "arbitrary-length call histories except through the one-step argument on the asserted invariants",
            "cpukinds (C15), distances (C13), memattrs (C14) steps are decided by their own properties"]
